@@ -92,6 +92,18 @@ static std::vector<uint8_t> c14_song(Rng &r)
         tick += (uint64_t)r.range(0, 48);
         SEv eot = mk_meta(tick, 0x2F, std::vector<uint8_t>()); eot.serial = serial++; tr.ev.push_back(eot);
     }
+    if(r.chance(0.6))
+    {   // loop markers in the first track: a global pair or a counted stack loop
+        STrack &t0 = sg.tracks[0];
+        if(t0.ev.size() >= 4)
+        {
+            size_t a = 1 + r.below((uint32_t)(t0.ev.size() - 3)), b = a + 1 + r.below((uint32_t)(t0.ev.size() - a - 2));
+            bool stack = r.chance(0.5);
+            SEv ms = mk_meta_text(t0.ev[a].tick, 0x06, stack ? "loopStart=2" : "loopStart"), me = mk_meta_text(t0.ev[b].tick, 0x06, stack ? "loopEnd=0" : "loopEnd");
+            ms.serial = 9001; me.serial = 9002;
+            t0.ev.insert(t0.ev.begin() + (long)b, me); t0.ev.insert(t0.ev.begin() + (long)a, ms);
+        }
+    }
     std::vector<uint8_t> f = serialize_song(sg);
     if(r.chance(0.15))
     {   // cut the last track: ... dd 9n kk <end>; its declared length shrinks with it
@@ -125,22 +137,28 @@ static Hist gen_hist(Rng &r, int force_emu = -1)
         else if(p < 58) { o.kind = 3; o.a = (int)r.below(2); o.b = (int)r.below(16384); }
         else if(p < 64) { o.kind = 4; o.a = (int)r.below(2); o.b = r.range(0, 127); }
         else if(p < 92) { o.kind = r.chance(0.8) ? 5 : 6; o.a = (int)std::min<long>(frames_left, r.chance(0.3) ? r.range(1, 40) : r.range(100, slow ? 400 : 1500)); frames_left -= o.a; if(o.a <= 0) { o.kind = 2; o.a = 0; o.b = 7; o.c = 100; } }
-        else if(p < 94) o.kind = 7;
+        else if(p < 93) o.kind = 7;
+        else if(p < 94) { o.kind = 18; o.a = (int)r.pick((const int[]){0, 1}); o.b = r.range(40, 70); o.c = r.range(5, 12); }   // chord: more notes than one chip has channels
         else if(p < 96) { o.kind = 8; o.a = r.range(0, 127); }
         else
         {   // configuration calls in the middle of the history: they re-program or re-create the chips of this instance only
-            int q = (int)r.below(6);
-            o.kind = 9 + q;
-            o.a = q == 0 ? (int)r.below(2) : q == 1 ? r.range(0, 7) : q == 3 ? (int)r.below(2) : q == 4 ? (int)r.below(2) : q == 5 ? r.range(0, 5) : 0;
+            int q = (int)r.below(7);
+            o.kind = q == 6 ? 17 : 9 + q;
+            o.a = q == 0 ? (int)r.below(2) : q == 1 ? r.range(0, 7) : q == 3 ? (int)r.below(2) : q == 4 ? (int)r.below(2) : q == 5 ? r.range(0, 5) : q == 6 ? 1 : 0;
         }
         h.ops.push_back(o);
     }
     HOp g; g.kind = 5; g.a = (int)std::min<long>(std::max<long>(frames_left, 64), slow ? 300 : 800); g.b = g.c = 0; h.ops.push_back(g);
+    if(r.chance(0.25))
+    {   // auto-arpeggio from the start and a chord early on: the arpeggio rotation runs for the rest of the history
+        HOp a; a.kind = 17; a.a = 1; a.b = a.c = 0; h.ops.insert(h.ops.begin(), a);
+        HOp ch; ch.kind = 18; ch.a = 0; ch.b = r.range(40, 70); ch.c = r.range(7, 14); h.ops.insert(h.ops.begin() + 1 + (long)r.below(3), ch);
+    }
     if(r.chance(0.35))
     {   // sequencer part: a song is loaded somewhere in the history and played through opn2_play in a few blocks
         h.song = c14_song(r);
         size_t at = r.below((uint32_t)h.ops.size());
-        HOp ld; ld.kind = 15; ld.a = ld.b = ld.c = 0;
+        HOp ld; ld.kind = 15; ld.a = ld.c = 0; ld.b = r.chance(0.5) ? 1 : 0;      // b: looping on (count 2) for this song
         std::vector<HOp> ins(1, ld);
         for(int i = 0, n = r.range(1, 4); i < n; i++) { HOp pl; pl.kind = 16; pl.a = slow ? r.range(50, 200) : r.range(100, 900); pl.b = pl.c = 0; ins.push_back(pl); }
         h.ops.insert(h.ops.begin() + (long)at, ins.begin(), ins.end());
@@ -203,7 +221,9 @@ struct Runner
         case 12: opn2_setChipType(d, o.a); break;
         case 13: opn2_setSoftPanEnabled(d, o.a); break;
         case 14: opn2_setVolumeRangeModel(d, o.a); break;
-        case 15: { int rc = opn2_openData(d, h->song.data(), (unsigned long)h->song.size()); out.pcm.push_back((int16_t)(1000 + rc)); out.pcm.push_back((int16_t)opn2_trackCount(d)); break; }
+        case 17: opn2_setAutoArpeggio(d, o.a); break;
+        case 18: for(int j = 0; j < o.c; j++) opn2_rt_noteOn(d, (uint8_t)o.a, (uint8_t)(o.b + j), 100); break;
+        case 15: { if(o.b) { opn2_setLoopEnabled(d, 1); opn2_setLoopCount(d, 2); } int rc = opn2_openData(d, h->song.data(), (unsigned long)h->song.size()); out.pcm.push_back((int16_t)(1000 + rc)); out.pcm.push_back((int16_t)opn2_trackCount(d)); break; }
         case 16: { size_t at = out.pcm.size(); out.pcm.resize(at + (size_t)o.a * 2 + 2, 0); int got = opn2_play(d, o.a * 2, out.pcm.data() + at); out.pcm[at + (size_t)o.a * 2] = (int16_t)(got & 0x7FFF); out.pcm[at + (size_t)o.a * 2 + 1] = (int16_t)opn2_atEnd(d); break; }
         default: { uint8_t m[] = {0xF0, 0x7F, 0x7F, 0x04, 0x01, 0x00, (uint8_t)o.a, 0xF7}; opn2_rt_systemExclusive(d, m, sizeof(m)); break; }
         }
